@@ -240,7 +240,18 @@ def run(prog, rep, tier, repo):
         key = 'intercept-is-mean'
         iv = w.get(fields['intercept'], [])
         ok = len(iv) == 1 and iv[0].value == ('call', 'statistics::moments::mean', (data,), None)
-        (rep.ok if ok else rep.viol)('intercept-is-mean', key, 'intercept := mean(data)' if ok else 'intercept is %s' % [show(s.value)[:80] for s in iv], site_of(f.body))
+        # refuted in the read forms only: the one stored value is a literal, an element of the data, a parameter, or a direct call of a
+        # statistics:: function other than mean(data); a mean computed inline (sum / len, a fold) is not read
+        def _definite(v):
+            if tag(v) in ('const', 'index', 'arg'):
+                return True
+            return tag(v) == 'call' and v[1].startswith('statistics::') and v != ('call', 'statistics::moments::mean', (data,), None)
+        if ok:
+            rep.ok('intercept-is-mean', key, 'intercept := mean(data)')
+        elif len(iv) == 1 and _definite(iv[0].value):
+            rep.viol('intercept-is-mean', key, 'intercept is %s' % [show(s.value)[:80] for s in iv], site_of(f.body))
+        else:
+            rep.undecided('intercept-is-mean', key, 'intercept is %s: not a direct call of mean(data), not read' % [show(s.value)[:80] for s in iv], site_of(f.body), proof=False)
         key = 'yule-walker:fit'
         cv = w.get(fields['coeffs'], [])
         verdict, msg = _yule_walker(prog, eng, f, me, data, fields, cv)
